@@ -114,10 +114,10 @@ class SetTemp(SimAlgo):
     def __call__(self, target):
         t = self.sim.tindex(target.now)
         for k, v in self.spec["set"].items():
-            if isinstance(v, list):
+            if isinstance(v, list) and k != "selected":
                 v = v[t % len(v)]
             if v is not None:
-                target.temp[k] = v
+                target.temp[k] = list(v) if isinstance(v, list) else v
         return True
 
 
